@@ -3,7 +3,7 @@
 patch=$1; shift
 git -C /repo apply "$patch" || { echo "patch does not apply"; exit 2; }
 for p in "$@"; do
-  /verif/bin/check $p quick 2>&1 | grep -v "^KNOWN-FINDING" | cut -c1-400
+  VERIF_SCRATCH=1 /verif/bin/check $p quick 2>&1 | grep -v "^KNOWN-FINDING" | cut -c1-400
 done
 git -C /repo checkout -- . ; /verif/bin/build_harness.sh
 git -C /repo status --short | head -3
